@@ -108,6 +108,7 @@ def run(ck, pid="C02"):
     if broken and not ck.violations:
         ck.violation({"broken_obligations": broken, "note": "a law of the ideal tree no longer checks; no history explored diverges"}, nofail=True)
     ck.extra["input_distribution"] = dist
+    move_child_tie(ck, exe, broken)
     # second layer: theorems about the concrete ADF mechanisms (block buffers, priority stack, sub-node tables) tied by
     # replaying real traces obtained through the CGNS_VERIF hooks (checks/C02b.py, notes/C02b.md)
     if pid == "C02":
@@ -125,6 +126,62 @@ def run(ck, pid="C02"):
         ck.layer = "C02d"
         C02d.run_extra(ck)
         ck.layer = None
+
+
+MOVE_MARKERS = [      # the steps of ADF_Move_Child that coq/AdfMove.v transcribes, in this order
+    "ADFI_check_4_child_name(file_index,&parent,child_name,&found,&sub_node_entry_location,&sub_node_entry,error_return);",
+    "if((found==0)||(sub_node_entry.child_location.block!=child.block)||(sub_node_entry.child_location.offset!=child.offset)){*error_return=CHILD_NOT_OF_GIVEN_PARENT;",
+    "ADFI_check_4_child_name(file_index,&new_parent,child_name,&found,&sub_node_entry_location,&sub_node_entry,error_return);",
+    "if(found==1){*error_return=DUPLICATE_CHILD_NAME;",
+    "ADFI_add_2_sub_node_table(file_index,&new_parent,&child,error_return);",
+    "ADFI_delete_from_sub_node_table(file_index,&parent,&child,error_return);",
+]
+
+
+def move_child_tie(ck, exe, broken):
+    """AdfMove.v (C02_move_child_atomic / _ok_spec / _old_refuted in Properties_C02b.v) is a hand transcription of
+    ADF_Move_Child: (1) its steps are looked for, in order, in the function's text in /repo; (2) the kernel-checked witness of
+    the old code (a wrong parent that has a child of the node's name) and a valid move run on both back ends against TreeDB"""
+    import re
+    src = open(os.path.join(vlib.REPO, "src", "adf", "ADF_interface.c"), errors="replace").read()
+    m = re.search(r"^void\s+ADF_Move_Child\(.*?^\} /\* end of ADF_Move_Child \*/", src, re.M | re.S)
+    body = re.sub(r"/\*.*?\*/", "", m.group(0), flags=re.S) if m else ""
+    body = re.sub(r"\s+", "", body)
+    pos, missing = 0, []
+    for mk in MOVE_MARKERS:
+        k = body.find(mk, pos)
+        if k < 0:
+            missing.append(mk)
+        else:
+            pos = k + len(mk)
+    # only CHECK_ADF_ABORT may stand between the steps' effects: no other table writer
+    writers = [w for w in re.findall(r"ADFI_(?:add_2|delete_from|write)\w*", body)]
+    shape_ok = bool(m) and not missing and writers == ["ADFI_add_2_sub_node_table", "ADFI_delete_from_sub_node_table", "ADFI_write_modification_date"]
+    hx = nodedb.hx
+    wit = ["file 1 F1.cgns BE w", "create 1 0 1 %s" % hx(b"A"), "create 1 0 2 %s" % hx(b"B"), "create 1 1 3 %s" % hx(b"x"),
+           "create 1 2 4 %s" % hx(b"x"), "label 1 4 %s" % hx(b"Other_t"),
+           "move 1 2 3 0",                                   # the witness of C02_move_child_old_refuted
+           "names 1 0 1 4", "names 1 1 1 3", "names 1 2 1 3", "lookup 1 0 %s" % hx(b"/A/x"), "lookup 1 0 %s" % hx(b"/B/x"),
+           "move 1 1 3 2",                                   # duplicate name under the new parent
+           "names 1 1 1 3", "names 1 2 1 3",
+           "move 1 1 3 0",                                   # the valid call
+           "names 1 0 1 4", "names 1 1 1 3", "lookup 1 0 %s" % hx(b"/x"),
+           "reopen 1 r", "names 1 0 1 4", "names 1 1 1 3", "names 1 2 1 3", "lookup 1 0 %s" % hx(b"/x"), "closef 1"]
+    r = nodedb.run_three(wit, ck.work, "movewit", exe)
+    fails = {be: nodedb.refinement_failure(r[be]) for be in ("adf", "hdf5")}
+    ck.cov["traces_validated_against_impl"] += 2
+    ck.case("move-child-witness", sample={"script": [nodedb.short(x, 60) for x in wit[:8]] + ["..."]})
+    ck.extra["move_child_tie"] = {"function_found": bool(m), "steps_missing": missing, "table_writers_in_order": writers,
+                                  "shape_ok": shape_ok, "witness_failures": {k: v for k, v in fails.items() if v}}
+    for be, f in fails.items():
+        if f:
+            ck.violation({"backend": be, "script": wit, "script_full": wit, "failure": f,
+                          "oracle": "TreeDB (ideal node database), extracted from Coq; witness of C02_move_child_old_refuted"})
+    if not shape_ok and not any(fails.values()) and not ck.violations:
+        ck.violation({"broken_obligation": "ADF_Move_Child no longer has the steps coq/AdfMove.v transcribes",
+                      "steps_missing": missing, "table_writers_in_order": writers,
+                      "theorems_no_longer_about_the_code": ["C02_move_child_atomic", "C02_move_child_ok_spec"],
+                      "note": "the witness history and the wrong-parent histories of this run show no failing input"}, nofail=True)
 
 
 def replay(ck, path):
